@@ -297,6 +297,18 @@ CHECKS["C21"] = (
     "DESIGN.md section 3, C21",
 )
 
+CHECKS["C22"] = (
+    "PROC",
+    "exploration",
+    "enumeration of configurations (instance x hash seed x random seed) with several fresh interpreter processes each, outputs compared byte-wise; entropy census of unseeded sources",
+    "Eight (thorough eleven) solver instances chosen to reach tied queue states with structural predicates, SMT clusters over several tree "
+    "variables, tree insertion, count with a numeric variable and plain fuzzing are run in 3 (4) fresh interpreters for each combination of "
+    "PYTHONHASHSEED in {0, 4711} (and 1) and random.seed in {0, 1}; the printed solution sequences of one configuration must be identical. "
+    "A census run wraps time.*, os.urandom, uuid and random.SystemRandom and reports any call from ISLa code while solving without a timeout.",
+    "The 'schedule' here is the set of processes of one configuration; nothing is claimed about other machines or Z3 builds. Runs cut by the solver's own timeout are compared on their common prefix.",
+    "DESIGN.md section 3, C22",
+)
+
 NOT_YET = "check not built yet in this round (planned in DESIGN.md section 3)"
 
 
